@@ -49,8 +49,11 @@ func writeSignedListing(path string, c *tlc.Container, b *wvlib.Build, sc *wvlib
 	}
 	for i, f := range c.Files {
 		e := b.Find(f.Path)
+		if e == nil {
+			e = &wvlib.BEntry{}
+		}
 		tok := ""
-		if e != nil && len(e.Data) <= 256 {
+		if len(e.Data) <= 256 {
 			tok = fmt.Sprintf("x:%x", e.Data)
 		} else {
 			p := fmt.Sprintf("%s.f%d", path, i)
